@@ -211,6 +211,30 @@ func (r *runner) candidateIndexes(q Query) []int {
 	return out
 }
 
+// indexProvidesOrder mirrors CanBeOrderedByIndex for the candidate indexes.
+func (r *runner) indexProvidesOrder(q Query) bool {
+	for _, i := range r.candidateIndexes(q) {
+		ix := r.c.Idx[i]
+		if len(q.Order) == 0 || len(q.Order) > len(ix.Fields) {
+			continue
+		}
+		mismatch, ok := 0, true
+		for k, o := range q.Order {
+			if fdef(ix.Fields[k].F).selName() != o.F {
+				ok = false
+				break
+			}
+			if ix.Fields[k].Desc != o.Desc {
+				mismatch++
+			}
+		}
+		if ok && (mismatch == 0 || mismatch == len(q.Order)) {
+			return true
+		}
+	}
+	return false
+}
+
 // driver names the operator of the condition on the chosen index's first field.
 func (r *runner) driver(q Query) (string, []*F) {
 	i, ok := r.chosenIndex(q)
@@ -398,8 +422,8 @@ func (r *runner) compare(qi int, q Query) *hx.Failure {
 		return fmt.Sprintf("query #%d %s\n indexes: %s\n documents: %s", qi, text, strings.Join(idx, "; "), r.dumpModel())
 	}
 	if ra.Panic != "" {
-		if strings.Contains(ra.Panic, "Unclosed iterator at time of Txn.Discard") && q.Limit > 0 && hasIn(q.Filter) {
-			return hx.Failf(sigInUnclosed, "an _in condition served from an index together with a limit that stops early leaves the current index iterator open; the request panics at commit: %s", ctx())
+		if strings.Contains(ra.Panic, "Unclosed iterator at time of Txn.Discard") && hasIn(q.Filter) && (q.Limit > 0 || hasRelIn(q.Filter)) {
+			return hx.Failf(sigInUnclosed, "an _in condition served from an index and not read to its end (a limit stops early, or a join restarts it) leaves the current index iterator open; the request panics at commit: %s", ctx())
 		}
 		return hx.Failf("C07/query-panic/"+hx.PanicSite(ra.Panic), "the indexed twin panics: %s\n%s", ctx(), ra.Panic)
 	}
@@ -471,16 +495,26 @@ func (r *runner) compare(qi int, q Query) *hx.Failure {
 	if len(q.Order) > 0 {
 		ka, kb := keyTuples(rowsA, q.Order), keyTuples(rowsB, q.Order)
 		if strings.Join(ka, "\n") != strings.Join(kb, "\n") {
+			if q.Limit > 0 {
+				// first see what the same query shows without the limit
+				if f := rowMode(); f != nil {
+					return f
+				}
+			}
 			// which side is wrong? an order the rows themselves contradict
 			okA := sortedByKeys(rowsA, q.Order, len(q.Order))
 			okB := sortedByKeys(rowsB, q.Order, len(q.Order))
 			d := diffRows(rowsA, rowsB)
+			firstKeySame := strings.Join(keyTuples(rowsA, q.Order[:1]), "\n") == strings.Join(keyTuples(rowsB, q.Order[:1]), "\n")
 			sig := "C07/order-keys-differ/" + drv
 			switch {
 			case q.Limit == 0 && !d.empty():
 				// a membership difference: reported below with its own diagnosis
 				sig = ""
-			case okA && !okB && len(q.Order) > 1 && sortedByKeys(rowsB, q.Order, 1) && (q.Limit > 0 || d.empty()):
+			case len(q.Order) > 1 && firstKeySame && (q.Limit > 0 || d.empty()) && ((okA && !okB) || !r.indexProvidesOrder(q)):
+				// the order node compares the first key only (ties keep their arrival order); it is
+				// in the plan of the twin without indexes, and of the indexed twin unless the index
+				// supplies the order
 				sig = sigScanOrderLaterKey
 			case !okA && okB && q.ShowDeleted && d.empty() && sortedWithoutDeleted(rowsA, q.Order):
 				// deleted documents are appended by a second fetcher; with the order node dropped
@@ -490,11 +524,6 @@ func (r *runner) compare(qi int, q Query) *hx.Failure {
 				sig = "C07/order-not-sorted/" + drv
 				if r.inListOrder(q, leaves) && (q.Limit > 0 || d.empty()) {
 					sig = sigInListOrder
-				}
-			}
-			if sig != "" && sig != sigScanOrderLaterKey && sig != sigInListOrder && sig != sigShowDeletedOrder && q.Limit > 0 {
-				if f := rowMode(); f != nil {
-					return f
 				}
 			}
 			if sig != "" {
@@ -584,16 +613,24 @@ func underMultiOr(f *F, l *F, under bool) bool {
 	return false
 }
 
-// diagnoseIndexError: the _like family served from an index on a Blob field answers
-// "unexpected type value" (the like matcher knows strings and JSON strings only).
+// diagnoseIndexError: a condition on a Blob field that the index evaluates with a value matcher
+// answers "unexpected type value" (the matchers are built from the string literal, the key holds bytes).
 func (r *runner) diagnoseIndexError(q Query, ra hx.Result, driving []*F) string {
 	if !strings.Contains(ra.Err(), "unexpected type value") {
 		return ""
 	}
-	for _, l := range driving {
-		if fdef(l.Field).Kind == "blob" && isLike(l.Cmp) {
-			return sigLikeOnBlob
-		}
+	i, ok := r.chosenIndex(q)
+	if !ok {
+		return ""
+	}
+	inIndex := false
+	for _, f := range r.c.Idx[i].Fields {
+		inIndex = inIndex || f.F == "bl"
+	}
+	onBlob := false
+	walkLeaves(q.Filter, false, func(l *F, underNot bool) { onBlob = onBlob || (l.Field == "bl" && !underNot) })
+	if inIndex && onBlob {
+		return sigBlobMatcher
 	}
 	return ""
 }
@@ -610,25 +647,59 @@ func (r *runner) diagnoseRows(q Query, d rowDiff, driving []*F) string {
 	onlyMissingRows := len(d.missing) > 0 && len(d.extra) == 0 && len(d.duplicated) == 0
 	// an index with an array field holds no entry at all for a document whose array is null or
 	// empty: whatever the query, such documents cannot come out of that index
-	if onlyMissingRows {
+	// (documents with several distinct elements have several entries; read without a condition on
+	// the array field and without the de-duplicating iterator they come out once per entry)
+	if len(d.extra) == 0 {
 		for _, i := range r.candidateIndexes(q) {
 			ix := r.c.Idx[i]
 			if len(ix.Fields) < 2 {
 				continue
 			}
-			for _, f := range ix.Fields {
-				fd := fdef(f.F)
-				if !fd.Arr {
-					continue
+			all := true
+			for _, row := range d.missing {
+				some := false
+				for _, f := range ix.Fields {
+					if fd := fdef(f.F); fd.Arr && emptyOrNullArray(row[fd.selName()]) {
+						some = true
+					}
 				}
-				all := true
-				for _, row := range d.missing {
-					all = all && emptyOrNullArray(row[fd.selName()])
-				}
-				if all {
-					return sigCompositeArrayEmpty
-				}
+				all = all && some
 			}
+			for _, row := range d.duplicated {
+				some := false
+				for _, f := range ix.Fields {
+					fd := fdef(f.F)
+					if arr, ok := row[fd.selName()].([]any); fd.Arr && ok {
+						distinct := map[string]bool{}
+						for _, e := range arr {
+							distinct[hx.Canon(e)] = true
+						}
+						some = some || len(distinct) > 1
+					}
+				}
+				all = all && some && q.Filter == nil
+			}
+			if all && len(d.missing) > 0 {
+				return sigCompositeArrayEmpty
+			}
+			if all && len(d.duplicated) > 0 {
+				return sigCompositeArrayDup
+			}
+		}
+	}
+	// a condition on the related document that also holds for "no related document" (_ne, _nin, ...):
+	// the join is inverted when an index exists and then starts from the related documents
+	if onlyMissingRows {
+		relLeaf := false
+		walkLeaves(q.Filter, false, func(l *F, underNot bool) {
+			relLeaf = relLeaf || (fdef(l.Field).Kind == "rel" && len(l.Path) > 0 && !underNot)
+		})
+		all := relLeaf
+		for _, row := range d.missing {
+			all = all && row["owner_id"] == nil
+		}
+		if all {
+			return sigRelNullOwner
 		}
 	}
 	// _in with null on a unique index: the null is looked up as an exact key, but entries with a
@@ -659,6 +730,41 @@ func (r *runner) diagnoseRows(q Query, d rowDiff, driving []*F) string {
 		for _, l := range driving {
 			if underMultiOr(q.Filter, l, false) {
 				return sigOrBranch
+			}
+		}
+	}
+	if onlyMissingRows && len(driving) > 1 {
+		// several conditions on the index's first field; which one the index takes depends on map order
+		anyAll := false
+		for _, l := range driving {
+			anyAll = anyAll || l.Arr == "_all"
+		}
+		fd := fdef(driving[0].Field)
+		all := anyAll && fd.Arr
+		for _, row := range d.missing {
+			arr, ok := row[fd.selName()].([]any)
+			all = all && ok && len(arr) == 0
+		}
+		if all {
+			return sigAllEmptyArray
+		}
+	}
+	// a condition on the JSON value itself (no path) other than equality: the index matches it
+	// against every leaf at any path instead of against the root value
+	if onlyMissingRows {
+		for _, l := range driving {
+			if fdef(l.Field).Kind == "json" && len(l.Path) == 0 && l.Arr == "" && l.Cmp != "_eq" && l.Cmp != "_in" {
+				all := true
+				for _, row := range d.missing {
+					switch row["j"].(type) {
+					case map[string]any, []any:
+					default:
+						all = false
+					}
+				}
+				if all {
+					return sigJSONRootOnLeaves
+				}
 			}
 		}
 	}
